@@ -112,7 +112,8 @@ pub fn generate_program_biased(rng: &mut Rng, case: &mut Case, thorough: bool, f
         statements: rng.range(4, if thorough { 40 } else { 16 }) as usize,
     };
     let cart_type = if p.banked { rng.pick(&[0x01u8, 0x03, 0x11, 0x13]) } else { rng.pick(&[0x00u8, 0x00, 0x01, 0x11]) };
-    let rom_code: u8 = if cart_type == 0 { 0 } else { rng.pick(&[1u8, 2, 3]) };
+    // mostly 4-16 banks; now and then 2 banks behind a controller, or 64 banks (MBC1 then needs its upper-bits register)
+    let rom_code: u8 = if cart_type == 0 { 0 } else { rng.pick(&[1u8, 2, 3, 1, 2, 3, 1, 2, 3, 0, 5, 5]) };
     let banks = rom_banks(rom_code);
     case.set("cart_type", cart_type as i64);
     case.set("rom_code", rom_code as i64);
@@ -396,7 +397,12 @@ pub fn generate_program_biased(rng: &mut Rng, case: &mut Case, thorough: bool, f
                 let to = 1 + rng.below(banks as u64 - 1) as u8;
                 let mut r = Asm::new(0x4400);
                 r.emit(&vec![0x0cu8; pre]);
-                r.emit(&[0x3e, to, 0xea, 0x00, 0x20 + rng.below(0x20) as u8]);
+                if rng.chance(1, 4) {
+                    // upper bank bits (MBC1, large ROMs) / RAM bank or RTC select (MBC3: no remapping, the block carries on)
+                    r.emit(&[0x3e, rng.below(4) as u8, 0xea, 0x00, 0x40 + rng.below(0x20) as u8]);
+                } else {
+                    r.emit(&[0x3e, to, 0xea, 0x00, 0x20 + rng.below(0x20) as u8]);
+                }
                 // continuation, reached under the bank selected by whichever bank's first half ran
                 r.emit(&[0x3e, b as u8, 0xea, 0xa4, 0xc0]);
                 filler(&mut r, rng, 3);
